@@ -243,6 +243,25 @@ func (fr *frame) fmtArg(pc fmtPiece, arg value, lenient bool) value {
 		if lenient {
 			return "<composite>"
 		}
+		// %v of a struct with symbolic leaves: {f1 f2 ...}, each field as %v
+		if st, ok := v.(structure); ok && pc.verb == 'v' && pc.spec == "" && it.t != nil {
+			if stt, ok := it.t.Underlying().(*types.Struct); ok && stt.NumFields() == len(st) {
+				out := []value{uint8('{')}
+				for k := range st {
+					if k > 0 {
+						out = append(out, uint8(' '))
+					}
+					fv := st[k]
+					ft := stt.Field(k).Type()
+					if fi, isI := fv.(iface); isI {
+						out = append(out, strBytes(fr.fmtArg(pc, fi, lenient))...)
+					} else {
+						out = append(out, strBytes(fr.fmtArg(pc, iface{t: ft, v: fv}, lenient))...)
+					}
+				}
+				return mkStr(append(out, uint8('}')))
+			}
+		}
 		if p.printing {
 			// output nobody may look at precisely (StdoutEnd refuses)
 			p.stdoutApprox = true
